@@ -75,6 +75,7 @@ func (c *concSession) fundRaw(ver, amt int, unc bool) (*txrec, string) {
 		}
 		var toSign []int
 		t.basis, toSign, err = wd.w.FundV2Transaction(&t.v2, cur(amt), unc)
+		t.bl = wd.basisLag(t.basis)
 		if err == nil {
 			wd.w.SignV2Inputs(&t.v2, toSign)
 		}
@@ -105,7 +106,7 @@ func (c *concSession) redistRaw(n, amt int) ([]*txrec, string) {
 	for i := range txns {
 		txns[i].ArbitraryData = []byte(fmt.Sprintf("verif-cr-%d", wd.nonce.Add(1)))
 		wd.w.SignV2Inputs(&txns[i], toSign[i])
-		ts = append(ts, &txrec{ver: 2, st: "out", v2: txns[i], basis: basis})
+		ts = append(ts, &txrec{ver: 2, st: "out", v2: txns[i], basis: basis, bl: wd.basisLag(basis)})
 	}
 	return ts, "ok"
 }
